@@ -513,6 +513,35 @@ func readFile(rc *RunCtx, format int, data []byte, cfg readCfg) *readResult {
 			}
 			collect(it)
 			obiiter.WaitForLastPipe()
+		case 3:
+			// the composition Read{Fasta,Fastq,Genbank,EMBL}FromFile performs when the format is
+			// given explicitly (--fasta, --fastq, ...): codec detection, then the reader, no sniffer
+			file, err := obiformats.Buf(rd)
+			if err == obiformats.ErrNoContent {
+				rr.probes["treated_as_empty_file"]++
+				return
+			}
+			if err != nil {
+				rr.openErr = err
+				return
+			}
+			var it obiiter.IBioSequence
+			switch format {
+			case fmFasta:
+				it, err = obiformats.ReadFasta(file, opts...)
+			case fmFastq:
+				it, err = obiformats.ReadFastq(file, opts...)
+			case fmGenbank:
+				it, err = obiformats.ReadGenbank(file, opts...)
+			case fmEmbl:
+				it, err = obiformats.ReadEMBL(file, opts...)
+			}
+			if err != nil {
+				rr.openErr = err
+				return
+			}
+			collect(it)
+			obiiter.WaitForLastPipe()
 		case 2:
 			// the composition ReadSequencesFromFile performs on an opened file
 			file, err := obiformats.Buf(rd)
@@ -631,7 +660,7 @@ func drawReadCfg(t *simrt.Tape, dataLen int, allowTransport bool) readCfg {
 	c.ErrAt = -1
 	ns := 2
 	if allowTransport {
-		ns = 3
+		ns = 4
 	}
 	c.Stage = t.Choose(ns)
 	switch t.Choose(5) {
@@ -653,7 +682,7 @@ func drawReadCfg(t *simrt.Tape, dataLen int, allowTransport bool) readCfg {
 	c.EOFData = t.Choose(3) == 2
 	c.Parsed = t.Choose(2) == 1
 	c.FullFile = t.Choose(6) == 5
-	if c.Stage == 2 {
+	if c.Stage >= 2 {
 		c.Codec = t.Choose(5)
 		// files, pipes and sockets never answer (0, nil); some decompressors do not accept it
 		c.ZeroReads = false
@@ -725,7 +754,7 @@ func runC01(rc *RunCtx) {
 		cfg.Parsed = false
 	}
 	data := fc.Text
-	if cfg.Stage == 2 && cfg.Codec > 0 {
+	if cfg.Stage >= 2 && cfg.Codec > 0 {
 		data = compress(cfg.Codec, fc.Text)
 	}
 	rc.Out.Sample = map[string]any{"format": fm, "records": len(fc.Recs), "bytes": len(fc.Text), "shape": fc.Shape, "config": cfg.String()}
@@ -964,7 +993,7 @@ func runC17(rc *RunCtx) {
 	}
 	n := len(image)
 	cfg := drawReadCfg(t, len(fc.Text), true)
-	cfg.Stage, cfg.Codec, cfg.Parsed, cfg.FullFile = 2, codec, false, false
+	cfg.Stage, cfg.Codec, cfg.Parsed, cfg.FullFile = 2+t.Choose(2), codec, false, false
 	data := image
 	switch kind {
 	case fkTruncate:
